@@ -134,7 +134,8 @@ def run_one(ck, prog):
     if s is not None and T.SPAWN in callers:
         c = prog.ctx(s)
         for d in T.call_blocks(c, dealloc):
-            r = c.cfg.reachable_from(d)
+            from ..engine import pathsens
+            r = pathsens.reachable_after(c, d)
             oks = [b for b in r if any(st["k"] == "assign" and st["rv"]["k"] == "agg" and (st["rv"].get("adt") or "").endswith("JoinHandle") for st in c.cfg.block(b)["stmts"])]
             ck.ob("C06.1", "spawn-frees-only-on-failure", not oks, fn=T.SPAWN, site=c.site(d), detail="spawn frees the join block on a path that still hands out a JoinHandle")
             # on a clone-failure path (the thread does not exist) or before clone
